@@ -114,8 +114,11 @@ def render_rich(attr_style, upper, dcolon, idcase):
               "    " + K("real") + dc + "ext", "    " + K("external") + dc + U("ext"), "    " + K("real") + dc + "other", "    " + K("external") + " other"]
     L += ["    " + K("character(len=10)") + dc + "c2, c3*20, c4(3)*5",
           "    " + K("integer") + dc + "cx, cy",
-          "    " + K("common") + " /blk/ " + U("cx") + ", cy",
-          "    " + K("namelist") + " /nml/ " + U("cx") + ", cy",
+          "    " + K("common") + " /blk/ " + U("cx") + ", cy" + (" /blk2/ c4" if attr_style == "decl" else ""),
+          *([] if attr_style == "decl" else ["    " + K("common") + " /blk2/ " + U("c4")]),
+          "    " + K("common") + " // c2",
+          "    " + K("namelist") + " /nml/ " + U("cx") + ", cy" + (" /nml2/ cy" if attr_style == "decl" else ""),
+          *([] if attr_style == "decl" else ["    " + K("namelist") + " /nml2/ " + U("cy")]),
           "  " + K("end subroutine") + " work",
           K("end module") + " shapes"]
     return "\n".join(L) + "\n"
@@ -183,6 +186,22 @@ def enumerator_values():
     return None
 
 
+def common_members():
+    """members of a common block are the declared variables of that name, whatever the letter case and whether or not the COMMON statement repeats the bounds; a blank
+    common and a second group on the same statement are blocks too"""
+    src = ("subroutine s()\n  integer x, y, d\n  real cb\n  common /BLK/ X, y /other/ cb(3)\n  common // d\nend subroutine s\n"
+           "subroutine t()\n  integer x, y\n  common /blk/ x, Y\nend subroutine t\n")
+    proj = realrun.build_project({"src/c.f90": src}, display=["public", "private", "protected"], proc_internals=True)
+    subs = {p.name: p for p in proj.procedures}
+    got = [(c.name.lower(), [(v if isinstance(v, str) else (v.name.lower(), v.vartype)) for v in c.variables], len(c.other_uses)) for c in subs["s"].common]
+    want = [("blk", [("x", "integer"), ("y", "integer")], 2), ("other", [("cb", "real")], 1), ("", [("d", "integer")], 1)]
+    left = [v.name for v in subs["s"].variables]
+    if got != want or left:
+        return {"confirmed": True, "input": {"source": src}, "actual": {"common blocks of s": got, "variables left outside the blocks": left}, "expected": {"common blocks of s": want, "variables left": []},
+                "how": "real pipeline (Project.correlate): (name, members with their declared type, number of uses in the project) of the common blocks"}
+    return None
+
+
 def variants():
     return list(itertools.product(["paren", "star", "kind"], ["decl", "stmt"], ["bare", "kw", "named", "joined"], [True, False], [False, True]))
 
@@ -215,7 +234,7 @@ def search():
         if d:
             return {"confirmed": True, "input": {"source": text, "base": base_text, "variant": v}, "actual": d, "expected": "same canonical entity tree as the base spelling",
                     "how": f"real parser: base spelling vs variant (kind spelling, attribute style, end style, '::', upper case) = {v}"}
-    return search_rich() or enumerator_values()
+    return search_rich() or enumerator_values() or common_members()
 
 
 def count_cases():
